@@ -74,15 +74,41 @@ Proof. reflexivity. Qed.
 
 Ltac cc := unfold is_id_char, is_id_start, is_alpha, is_hex_char, hexval, is_ws, is_digit, c_quote, c_space in *; lia.
 
+Lemma hex_char_range c : is_hex_char c = true -> (48 <= c)%N.
+Proof.
+  unfold is_hex_char, hexval.
+  destruct (N.leb 48 c && N.leb c 57) eqn:E1; [lia|].
+  destruct (N.leb 97 c && N.leb c 102) eqn:E2; [lia|].
+  destruct (N.leb 65 c && N.leb c 70) eqn:E3; [lia|]. discriminate.
+Qed.
 Lemma hex_char_not_quote : is_hex_char c_quote = false.
 Proof. reflexivity. Qed.
+
+Lemma lex_sym1 c f rest :
+  is_ws c = false -> N.eqb c c_quote = false -> (N.eqb c 120 || N.eqb c 88) = false -> is_digit c = false ->
+  is_id_start c = false -> sym1 c = true -> sym2 c c_space = false ->
+  lex_fuel (S (S f)) (c :: c_space :: rest) = cons_opt (TSym [c]) (lex_fuel f rest).
+Proof.
+  intros H1 H2 H3 H4 H5 H6 H7. rewrite lex_fuel_S. rewrite H1, H2, H3, H4, H5.
+  cbn [andb head_is]. change (N.eqb 45 c_space) with false. change (N.eqb 42 c_space) with false.
+  change (is_digit c_space) with false. rewrite !andb_false_r. rewrite H7, H6. rewrite lex_fuel_space. reflexivity.
+Qed.
+Lemma lex_sym2 a b f rest :
+  is_ws a = false -> N.eqb a c_quote = false -> (N.eqb a 120 || N.eqb a 88) = false -> is_digit a = false ->
+  is_id_start a = false -> sym2 a b = true ->
+  (N.eqb a 45 && N.eqb 45 b) = false -> (N.eqb a 47 && N.eqb 42 b) = false -> (N.eqb a 46 && is_digit b) = false ->
+  lex_fuel (S (S f)) (a :: b :: c_space :: rest) = cons_opt (TSym [a; b]) (lex_fuel f rest).
+Proof.
+  intros H1 H2 H3 H4 H5 H6 H7 H8 H9. rewrite lex_fuel_S. rewrite H1, H2, H3, H4, H5.
+  cbn [andb head_is]. rewrite H7, H8, H9, H6. rewrite lex_fuel_space. reflexivity.
+Qed.
 
 (* each token, followed by the separating space, is read back *)
 Lemma lex_tok_step : forall t f rest,
   wf_tok t = true ->
   lex_fuel (S (S f)) (render_tok t ++ c_space :: rest) = cons_opt t (lex_fuel f rest).
 Proof.
-  intros t f rest Hwf. destruct t as [s|s|s|s|s]; simpl in Hwf.
+  intros t f rest Hwf. destruct t as [s|s|s|s|s]; unfold wf_tok in Hwf.
   - (* word *)
     apply andb_true_iff in Hwf. destruct Hwf as [Hh Hall].
     destruct s as [|c s']; [discriminate|]. simpl in Hh. simpl render_tok.
@@ -130,13 +156,9 @@ Proof.
     change (head_is (N.eqb c_quote) (c_quote :: c_space :: rest)) with true. rewrite Hev. simpl andb. cbv iota.
     simpl tl. rewrite lex_fuel_space. reflexivity.
   - (* symbol: by enumeration *)
-    unfold mem_str, sym_list in Hwf. simpl in Hwf.
-    repeat match type of Hwf with
-           | (str_eqb ?a ?b || _) = true =>
-               let E := fresh "E" in destruct (str_eqb a b) eqn:E;
-               [apply str_eqb_eq in E; subst s; reflexivity | simpl in Hwf]
-           end.
-    discriminate.
+    apply mem_str_In in Hwf. unfold sym_list in Hwf. simpl in Hwf.
+    repeat (destruct Hwf as [Hwf|Hwf]; [subst s; first [ apply lex_sym1; reflexivity | apply lex_sym2; reflexivity ] |]).
+    contradiction.
 Qed.
 
 Lemma render_cons t l : render (t :: l) = render_tok t ++ c_space :: render l.
@@ -144,16 +166,11 @@ Proof. unfold render. simpl. rewrite <- app_assoc. reflexivity. Qed.
 
 Lemma render_tok_nonempty t : wf_tok t = true -> (1 <= length (render_tok t))%nat.
 Proof.
-  destruct t as [s|s|s|s|s]; simpl; intros H; try lia.
+  destruct t as [s|s|s|s|s]; unfold wf_tok; intros H; try (simpl; lia).
   - destruct s; [discriminate | simpl; lia].
   - destruct s; [discriminate | simpl; lia].
-  - unfold mem_str, sym_list in H. simpl in H.
-    repeat match type of H with
-           | (str_eqb ?a ?b || _) = true =>
-               let E := fresh "E" in destruct (str_eqb a b) eqn:E;
-               [apply str_eqb_eq in E; subst s; simpl; lia | simpl in H]
-           end.
-    discriminate.
+  - apply mem_str_In in H. unfold sym_list in H. simpl in H.
+    repeat (destruct H as [H|H]; [subst s; simpl; lia |]). contradiction.
 Qed.
 
 Lemma lex_fuel_render : forall toks f,
@@ -175,33 +192,30 @@ Proof. induction l1; simpl; [reflexivity|]. rewrite IHl1, orb_assoc. reflexivity
 Lemma forallb_no_nul (p : cp -> bool) s :
   (forall c, p c = true -> N.eqb 0 c = false) -> forallb p s = true -> existsb (N.eqb 0) s = false.
 Proof.
-  intros Hp. induction s as [|c s IH]; simpl; [reflexivity|]. intros H.
+  intros Hp. induction s as [|c s IH]; cbn [existsb forallb]; [reflexivity|]. intros H.
   apply andb_true_iff in H. destruct H as [Hc Hs]. rewrite (Hp c Hc), (IH Hs). reflexivity.
 Qed.
 
 Lemma sql_quote_no_nul s : existsb (N.eqb 0) (sql_quote s) = existsb (N.eqb 0) s.
 Proof.
-  induction s as [|c s IH]; simpl; [reflexivity|].
-  destruct (N.eqb c c_quote) eqn:E; simpl.
-  - apply N.eqb_eq in E. subst c. rewrite IH. reflexivity.
-  - rewrite IH. reflexivity.
+  induction s as [|c s IH]; [reflexivity|].
+  change (sql_quote (c :: s)) with ((if N.eqb c c_quote then [c_quote; c_quote] else [c]) ++ sql_quote s).
+  rewrite existsb_app, IH. cbn [existsb].
+  destruct (N.eqb c c_quote) eqn:E.
+  - apply N.eqb_eq in E. subst c. reflexivity.
+  - cbn [existsb]. rewrite orb_false_r. reflexivity.
 Qed.
 
 Lemma render_tok_no_nul t : wf_tok t = true -> existsb (N.eqb 0) (render_tok t) = false.
 Proof.
-  destruct t as [s|s|s|s|s]; simpl; intros H.
+  destruct t as [s|s|s|s|s]; unfold wf_tok; intros H; simpl render_tok.
   - apply andb_true_iff in H. destruct H as [_ H]. revert H. apply forallb_no_nul. intros c Hc. cc.
   - apply andb_true_iff in H. destruct H as [_ H]. revert H. apply forallb_no_nul. intros c Hc. cc.
-  - rewrite existsb_app, sql_quote_no_nul. simpl. unfold no_nul in H. apply negb_true_iff in H. rewrite H. reflexivity.
-  - apply andb_true_iff in H. destruct H as [H _]. rewrite existsb_app. simpl.
-    rewrite (forallb_no_nul is_hex_char s); [reflexivity | | exact H]. intros c Hc. cc.
-  - unfold mem_str, sym_list in H. simpl in H.
-    repeat match type of H with
-           | (str_eqb ?a ?b || _) = true =>
-               let E := fresh "E" in destruct (str_eqb a b) eqn:E;
-               [apply str_eqb_eq in E; subst s; reflexivity | simpl in H]
-           end.
-    discriminate.
+  - cbn [existsb]. rewrite existsb_app, sql_quote_no_nul. unfold no_nul in H. apply negb_true_iff in H. rewrite H. reflexivity.
+  - apply andb_true_iff in H. destruct H as [H _]. cbn [existsb]. rewrite existsb_app.
+    rewrite (forallb_no_nul is_hex_char s); [reflexivity | | exact H]. intros c Hc. apply hex_char_range in Hc. lia.
+  - apply mem_str_In in H. unfold sym_list in H. simpl in H.
+    repeat (destruct H as [H|H]; [subst s; reflexivity |]). contradiction.
 Qed.
 
 Lemma render_no_nul toks : wf_toks toks = true -> existsb (N.eqb 0) (render toks) = false.
